@@ -32,15 +32,22 @@ class AssemblyManager(object):
     def assemble(self):
         modmap = self._generate_modules_map()
 
-        for elem in self.elements:
-            self._deref_citations(elem.record)
+        citations = [
+            (feature, list(feature.qualifiers["citation"]))
+            for elem in self.elements
+            for feature in elem.record.features
+            if "citation" in feature.qualifiers
+        ]
 
-        assembly = self._generate_assembly(modmap)
-
-        self._annotate_assembly(assembly)
-        self._ref_citations(assembly)
-        for elem in self.elements:
-            self._ref_citations(elem.record)
+        try:
+            for elem in self.elements:
+                self._deref_citations(elem.record)
+            assembly = self._generate_assembly(modmap)
+            self._annotate_assembly(assembly)
+            self._ref_citations(assembly)
+        finally:
+            for feature, citation in citations:
+                feature.qualifiers["citation"][:] = citation
 
         return assembly
 
@@ -90,8 +97,8 @@ class AssemblyManager(object):
             for i, ref in enumerate(feature.qualifiers.get("citation", [])):
                 if ref not in references:
                     references.append(ref)
-                ref_index = references.find(ref) + 1
-                feature.qualifiers["citation"][i] = "{}".format(ref_index)
+                ref_index = references.index(ref) + 1
+                feature.qualifiers["citation"][i] = "[{}]".format(ref_index)
 
     def _annotate_assembly(self, assembly):
         assembly.id = self.id
